@@ -79,6 +79,9 @@ def cat_all(parts):
     return out
 
 
+KEEP_GROUPS = False   # set while emitting the `_g` variant: named capturing groups are kept as `.group <index> …`
+
+
 def tr_seq(items, state, flags, is_bytes, top=False):
     parts = []
     n = len(items)
@@ -108,7 +111,10 @@ def tr_item(op, av, state, flags, is_bytes):
             raise Unsupported("inline flags")
         inner = tr_seq(list(p), state, flags, is_bytes)
         # capturing groups do not change what is matched or how the search proceeds; they are dropped so that repeated
-        # sub-patterns are syntactically identical terms (the driver compares match positions, not captures)
+        # sub-patterns are syntactically identical terms (the driver compares match positions, not captures);
+        # the `_g` variant keeps the NAMED groups (the only ones the library reads), numbered as CPython numbers them
+        if KEEP_GROUPS and group is not None and group in state.groupdict.values():
+            return f"(.group {group} {inner})"
         return inner
     if op is K.BRANCH:
         _, alts = av
@@ -135,12 +141,23 @@ def tr_item(op, av, state, flags, is_bytes):
     raise Unsupported(f"construct {op}")
 
 
-def translate(pattern, flags):
+def translate(pattern, flags, keep_groups=False):
+    global KEEP_GROUPS
     is_bytes = isinstance(pattern, bytes)
     parsed = P.parse(pattern, flags)
     state = parsed.state
     eff = parsed.state.flags
-    return tr_seq(list(parsed), state, eff, is_bytes, top=True), int(eff)
+    KEEP_GROUPS = keep_groups
+    try:
+        return tr_seq(list(parsed), state, eff, is_bytes, top=True), int(eff)
+    finally:
+        KEEP_GROUPS = False
+
+
+def named_groups(pattern, flags):
+    """[(name, index)] of the named groups of a pattern, in index order"""
+    parsed = P.parse(pattern, flags)
+    return sorted(parsed.state.groupdict.items(), key=lambda kv: kv[1])
 
 
 def capture():
@@ -223,6 +240,7 @@ def gen_regexes() -> str:
     w.append("open Verif")
     w.append("")
     names = []
+    gnames = []
     for name, pat, flags in pats:
         try:
             term, eff = translate(pat, flags)
@@ -236,7 +254,21 @@ def gen_regexes() -> str:
         w.append(f"  {term}")
         w.append("")
         names.append(name)
+        groups = named_groups(pat, flags)
+        if groups and term != ".unsupported":
+            gterm, _ = translate(pat, flags, keep_groups=True)
+            w.append(f"/-- `{name}` with its named capturing groups kept (`.group <CPython group index> …`) -/")
+            w.append(f"def {name}_g : Re :=")
+            w.append(f"  {gterm}")
+            w.append("")
+            w.append(f"/-- group name → CPython group index of `{name}` -/")
+            w.append(f"def {name}_groups : List (String × Nat) := [" + ", ".join(f'("{g}", {i})' for g, i in groups) + "]")
+            w.append("")
+            gnames.append(name)
     w.append("def allPatterns : List (String × Re) := [" + ", ".join(f'("{n}", {n})' for n in names) + "]")
+    w.append("")
+    w.append("/-- the patterns with named groups: name, group-keeping translation, group table -/")
+    w.append("def allGroupPatterns : List (String × Re × List (String × Nat)) := [" + ", ".join(f'("{n}", {n}_g, {n}_groups)' for n in gnames) + "]")
     w.append("")
     w.append("end Verif.Regexes")
     return "\n".join(w) + "\n"
